@@ -236,6 +236,10 @@ func symDecrypt(params *ECIESParams, key, ct []byte) (m []byte, err error) {
 		return
 	}
 
+	// the first block of ct is the counter IV: a body shorter than that is not a ciphertext
+	if len(ct) < params.BlockSize {
+		return nil, ErrInvalidMessage
+	}
 	ctr := cipher.NewCTR(c, ct[:params.BlockSize])
 
 	m = make([]byte, len(ct)-params.BlockSize)
